@@ -1,6 +1,7 @@
 import Rangers.Basic.Hex
 import Rangers.Basic.Line
 import Rangers.Model.WireConv
+import Rangers.Model.WireEnvelope
 /-!
 Line-protocol driver for C09. Ops (see harness/cmd/c09/main.go for the Go side):
 
@@ -18,6 +19,12 @@ Line-protocol driver for C09. Ops (see harness/cmd/c09/main.go for the Go side):
   mm <id> <pubkey>       MarshalMember             -> err | <hex>
   mu <hex>               UnMarshalMember           -> err | ok <id> <pubkey>
   jt <time>              json.Marshal(time)        -> err | <hex>
+  rm <hashes> <current> <height> <pv>  core marshalTransactionRequestMessage -> panic | <hex>
+  ru <hex>               core unMarshalTransactionRequestMessage -> err | ok <hashes> <current> <height> <pv>
+  em <code> <body>       network marshalMessage    -> <hex>
+  eu <hex>               network unMarshalMessage  -> err | panic | ok <code> <body>
+  fl <method> <target> <nonce> <body>  baseConn.loadMsg   -> <hex>
+  fu <hex>               baseConn.unloadMsg        -> <method> <source> <target> <nonce> <body>
   ret <hex>              retention: the value returned earlier (bytes of a Marshal, or the token rendering of a
                          parsed object) as it reads now, after later calls -> <hex> (a value does not change)
   jr <hex>               RequestIds JSON decode    -> <reqids>
@@ -253,6 +260,23 @@ def step (_ : Unit) (line : String) : Unit × String :=
                 | .panic _ => "panic")
             | _ => "bad-op")
        | _ => "bad-op")
+    | ["rm", hs, cur, h, pv] =>
+      (match pList pPair hs, pHash cur, pU64 h, (if pv == "n" then some none else (pInt pv).map some) with
+       | some hashes, some current, some height, some pvv =>
+         (match marshalTxReq ⟨hashes, current, height, pvv⟩ with
+          | .ok b => toHex b
+          | .err => "err"
+          | .nilObj => "nil"
+          | .panic _ => "panic")
+       | _, _, _, _ => "bad-op")
+    | ["em", c, b] =>
+      (match pU32 c, pOptBytes b with
+       | some code, some body => toHex (marshalEnvelope ⟨code, body⟩)
+       | _, _ => "bad-op")
+    | ["fl", m, t, n, b] =>
+      (match ofHex? m, pU64 t, pU64 n, ofHex? b with
+       | some method, some tgt, some nonce, some body => toHex (loadMsg method tgt nonce body)
+       | _, _, _, _ => "bad-op")
     | ["mm", a, b] =>
       (match pOptBytes a, pOptBytes b with
        | some i, some k =>
@@ -307,6 +331,15 @@ def step (_ : Unit) (line : String) : Unit × String :=
              | _ => toString gs.length ++ " " ++ " ".intercalate (gs.map sGroup)) (unmarshalGroups bs)
          else if op == "gu" then
            showOutcome (fun g => sGroup g ++ " " ++ toHex (groupHeaderGenHash g.header)) (unmarshalGroup bs)
+         else if op == "ru" then
+           showOutcome (fun m => sList (fun p => toHex p.1 ++ "." ++ toHex p.2) m.hashes ++ " " ++ toHex m.current ++ " " ++
+             toString m.height ++ " " ++ (match m.pv with | none => "n" | some v => toString v)) (unmarshalTxReq bs)
+         else if op == "eu" then
+           showOutcome (fun m => toString m.code ++ " " ++ sOptBytes m.body) (unmarshalEnvelope bs)
+         else if op == "fu" then
+           (let (h, b) := unloadMsg bs
+            sOptBytes h.method ++ " " ++ toString h.sourceId ++ " " ++ toString h.targetId ++ " " ++ toString h.nonce ++
+              " " ++ sOptBytes b)
          else if op == "ret" then toHex bs
          else if op == "jr" then sReqIds (decReqIds bs)
          else if op == "jq" then toHex (jsonQuote bs)
